@@ -3,7 +3,7 @@ random larger sequences go through the real code; TLC judges (input view, values
 import json
 
 from harness import core, project as P
-from harness.common import pmap, build
+from harness.common import pmap, build, via
 from harness.drive_quantise import random_score
 
 core.import_scoda()
@@ -15,7 +15,7 @@ def execute(case):
     line = {"values": values, "noExtend": noext, "in": [], "out": [], "raised": "",
             "case": {"score": score, "values": values, "noExtend": noext}}
     try:
-        seq = build(score, "abs" if idx % 2 == 0 else "rel")
+        seq = build(score, via(idx))
         line["in"] = P.raw_abs(seq)
         seq.quantise_note_lengths(list(values), do_not_extend=noext)
         line["out"] = P.raw_abs(seq)
